@@ -56,7 +56,7 @@ def strip_generics(s):
         return s
     out = []; i = 0; n = len(s)
     while i < n:
-        if s.startswith('::<', i):
+        if s.startswith('::<', i) and not s.startswith('::<impl ', i):
             j = i + 2; d = 0
             while j < n:
                 c = s[j]
@@ -505,6 +505,8 @@ def parse_operand(fn, o):
 
 def parse_rvalue(fn, rv):
     rv = rv.strip()
+    if rv.startswith('no_retag '):
+        rv = rv[9:]
     m = RE_BINOP.match(rv)
     if m:
         aa, bb = split_top(m.group(2))
